@@ -55,6 +55,16 @@ Proof.
   apply ext_bind; [apply (proj1 (exprs_mono f g Hle))|intro v]. destruct (env_set ne k v); [apply IH|apply ext_refl].
 Qed.
 
+Lemma dump_args_mono (ev ev' : expr -> outcome value) :
+  (forall e, ext (ev e) (ev' e)) -> forall args, ext (dump_args ev args) (dump_args ev' args).
+Proof.
+  intros Hev. induction args as [|a r IH]; [apply ext_refl|]. cbn [dump_args]. intro H.
+  pose proof (Hev a) as Ha. unfold ext in Ha.
+  destruct (ev a) as [v|ln msg| | |] eqn:Ea; try (rewrite (Ha ltac:(discriminate)); try reflexivity).
+  - destruct (dump_value 0 v); [|reflexivity]. apply (ext_bind _ _ _ _ IH); [intro; apply ext_refl|exact H].
+  - congruence.
+Qed.
+
 Definition MS (f g : nat) : Prop :=
   (forall cx en s, ext (eval_stmt cx f en s) (eval_stmt cx g en s)) /\
   (forall cx en ss acc, ext (eval_block cx f en ss acc) (eval_block cx g en ss acc)) /\
@@ -105,6 +115,7 @@ Proof.
       { destruct arg as [[]|]; try apply ext_refl. apply bind_args_mono. exact Hfg. }
       intro en1. apply ext_bind; [apply IHp|intro; apply ext_refl].
     + cbn [eval_stmt]. destruct body as [b|]; [|apply ext_refl]. apply ext_bind; [apply IHb|intro; apply ext_refl].
+    + cbn [eval_stmt]. apply ext_bind; [apply dump_args_mono; intro; apply IHe|intro; apply ext_refl].
   - intros cx en ss acc. destruct ss; [apply ext_refl|]. cbn [eval_block].
     apply ext_bind; [apply IHs|intro r]. cbv zeta. destruct (has_break (fst r) || has_continue (fst r)); [apply ext_refl|apply IHb].
   - intros cx en alts alt. destruct alts as [|[c b] alts]; cbn [eval_alts].
